@@ -72,10 +72,18 @@ def gen_gp_input(rng, differentiable=False, well_conditioned=False, allow_multit
     idx = None
   elif mt < 0.7:
     idx = [[0] * dim]
-  elif mt < 0.9 or n < dim + 3:
+  elif mt < 0.85 or n < dim + 3:
     idx = [[0] * dim] + [[int(a == b) for a in range(dim)] for b in range(dim)] if n >= dim + 2 else [[0] * dim]
-  else:
+  elif mt < 0.95:
     idx = [[0] * dim, [2] + [0] * (dim - 1)]
+  else:                                                      # custom monomials without the constant: one term, or two
+    e = [0] * dim
+    e[rng.randrange(dim)] = rng.choice([1, 2])
+    if dim > 1 and rng.random() < 0.4:
+      e[rng.randrange(dim)] += 1
+    idx = [e] if rng.random() < 0.6 else [e, [int(k == 0) for k in range(dim)]]
+    if len(idx) == 2 and idx[0] == idx[1]:
+      idx = [e]
   tik = None if (well_conditioned or rng.random() < 0.7) else rng.choice([1e-6, 1e-3, 0.05])
   xs = [[rng.uniform(-0.2, 1.2) for _ in range(dim)] for _ in range(rng.randint(1, 4))]
   if not well_conditioned and rng.random() < 0.3:
